@@ -1,6 +1,6 @@
 (* Unit C01_expr: the expression layer of C01.  Statements only; proofs are in Proofs/ToCP.v. *)
 From Coq Require Import ZArith QArith List Bool.
-From RV Require Import Base.Wire Base.Text Lang.PyAst Lang.PySem Lang.CAst Lang.CSem Lang.ToC Gen.OpTables Proofs.ToCP Proofs.ToCPres Proofs.AtolP.
+From RV Require Import Base.Wire Base.Text Lang.PyAst Lang.PySem Lang.CAst Lang.CSem Lang.ToC Gen.OpTables Proofs.ToCP Proofs.ToCPres Proofs.ToCLitP Proofs.AtolP.
 Import ListNotations.
 Open Scope Z_scope.
 
@@ -158,15 +158,70 @@ Theorem C01_str_bool_refuted : exists e : pexpr,
 Proof. exact str_bool_refuted. Qed.
 Print Assumptions C01_str_bool_refuted.
 
-Theorem C01_strlit_concat_refuted : exists e : pexpr,
-  py_of e = Ok (VStr [97; 99]) /\ c_of e [] = Some CStuck.
-Proof. exact strlit_concat_refuted. Qed.
-Print Assumptions C01_strlit_concat_refuted.
+(* ---- repaired defects F-C01-strlit-concat (= F-C06-literal-concat) and F-C01-int-strlit-cond: positive theorems that replace
+   C01_strlit_concat_refuted and C01_int_strlit_cond_refuted.  charp_src = parser._is_c_string_literal: a string literal, an
+   f-string without fields, a conditional expression choosing between such - what the emitter prints as const char* ---- *)
 
-Theorem C01_int_strlit_cond_refuted : exists e : pexpr,
-  py_of e = Ok (VInt 12) /\ c_of e [] = Some CStuck.
-Proof. exact int_strlit_cond_refuted. Qed.
-Print Assumptions C01_int_strlit_cond_refuted.
+(* `+` of two such expressions is emitted with String(...) around the left operand ... *)
+Theorem C01_strlit_concat_wrapped : forall G a b a' b',
+  charp_src a = true -> charp_src b = true -> to_c G a = TOk a' -> to_c G b = TOk b' ->
+  to_c G (EBin Add a b) = TOk (CBin t_plus (CString a') b').
+Proof. exact strlit_concat_wrapped. Qed.
+Print Assumptions C01_strlit_concat_wrapped.
+
+(* ... which is well typed C++ (a String) whenever the operands are: no pointer + pointer any more ... *)
+Theorem C01_strlit_concat_well_typed : forall G a b c,
+  charp_src a = true -> charp_src b = true -> wt G a = true -> wt G b = true ->
+  to_c G (EBin Add a b) = TOk c -> ctype (tc_types G) c = Some TString.
+Proof. exact strlit_concat_typed. Qed.
+Print Assumptions C01_strlit_concat_well_typed.
+
+(* ... and inside the guard of C01_expr_preserve_partial whenever the operands are: the device computes Python's value *)
+Theorem C01_strlit_concat_in_guard : forall G rho a b x y,
+  charp_src a = true -> charp_src b = true -> wt G a = true -> wt G b = true ->
+  expr_guard G rho a = true -> expr_guard G rho b = true ->
+  peval rho a = Ok (VStr x) -> peval rho b = Ok (VStr y) ->
+  expr_guard G rho (EBin Add a b) = true.
+Proof. exact strlit_concat_in_guard. Qed.
+Print Assumptions C01_strlit_concat_in_guard.
+
+(* the emitter's test means what it should: such an expression denotes a string, has the C++ type const char*, and the
+   transpiler's own inference labels it String *)
+Theorem C01_charp_src_meaning : forall G rho e,
+  charp_src e = true ->
+  (forall v, peval rho e = Ok v -> is_strv v = true) /\
+  (forall c t, to_c G e = TOk c -> ctype (tc_types G) c = Some t -> t = TCharP) /\
+  infer G e = Some LString.
+Proof.
+  exact (fun G rho e H => conj (fun v => charp_src_str rho e v H)
+                         (conj (fun c t => charp_src_charp G e c t H) (charp_src_infer G e H))).
+Qed.
+Print Assumptions C01_charp_src_meaning.
+
+(* int() / float() of such an expression: String(...).toInt() / .toFloat() - a method call on an object, not on a pointer *)
+Theorem C01_num_of_strlit_wrapped : forall G (fl : bool) a a',
+  charp_src a = true -> to_c G a = TOk a' ->
+  to_c G (ECall (if fl then n_float else n_int) [a] []) = TOk (CToNum fl true a').
+Proof. exact num_of_strlit_wrapped. Qed.
+Print Assumptions C01_num_of_strlit_wrapped.
+
+Theorem C01_int_of_strlit_well_typed : forall G a c,
+  charp_src a = true -> wt G a = true -> to_c G (ECall n_int [a] []) = TOk c -> ctype (tc_types G) c = Some TInt.
+Proof. exact int_of_strlit_typed. Qed.
+Print Assumptions C01_int_of_strlit_well_typed.
+
+(* the witnesses of the two findings: translated, inside the guard, and the device computes Python's value *)
+Example C01_strlit_concat_witness :
+  let e := EBin Add (EIfExp (EBool true) (EStr [97]) (EStr [98])) (EStr [99]) in
+  py_of e = Ok (VStr [97; 99]) /\ c_of e [] = Some (COk (CStr [97; 99], [])) /\ expr_guard G0 [] e = true.
+Proof. exact strlit_concat_witness. Qed.
+Print Assumptions C01_strlit_concat_witness.
+
+Example C01_int_strlit_cond_witness :
+  let e := ECall n_int [EIfExp (EBool true) (EStr [49; 50]) (EStr [49; 51])] [] in
+  py_of e = Ok (VInt 12) /\ c_of e [] = Some (COk (CInt 12, [])) /\ expr_guard G0 [] e = true.
+Proof. exact int_strlit_cond_witness. Qed.
+Print Assumptions C01_int_strlit_cond_witness.
 
 Theorem C01_len_utf8_refuted : exists e : pexpr,
   py_of e = Ok (VInt 2) /\ c_of e [] = Some (COk (CInt 3, [])).
